@@ -183,15 +183,16 @@ def run_shard(shard):
             none_nodes = [j for j, (_, n_out) in enumerate(shape) if n_out == 1 and any(out_name(j, 0) in ps for ps, _ in shape)]
             variants = [(omit, select, order, False) for omit, select in _omissions(shape, ext_src) for order in ords]
             if none_nodes:
-                variants.append((frozenset(), None, ords[0], True))  # consumed single outputs carry the value None
+                variants.append((frozenset(), None, ords[0], "none"))  # consumed single outputs carry the value None
+                variants.append((frozenset(), None, ords[0], "tuple1"))  # ... or a 1-tuple / empty tuple (must not be unpacked)
             for omit, select, order, none_variant in variants:
                 if True:
                     for runner in ("sync", "async"):
                         prog, provided = dag_program(shape, ext_src, out_default, order, is_async=(runner == "async"))
                         if none_variant:
-                            for j in none_nodes:
-                                prog["nodes"][j]["behav"] = {"const": None}
-                            acc.counters["runs_with_None_valued_outputs"] += 1
+                            for jj, j in enumerate(none_nodes):
+                                prog["nodes"][j]["behav"] = {"const": None} if none_variant == "none" else {"const": [["one", j]] if jj % 2 == 0 else []}
+                            acc.counters[f"runs_with_special_valued_outputs[{none_variant}]"] += 1
                         prov = {k: v for k, v in provided.items() if k not in omit}
                         acc.evaluations += 1
                         key = (tuple(shape), tuple(sorted((k, "".join(sorted(v))) for k, v in ext_src.items())), tuple(sorted(out_default)), order, runner, tuple(sorted(omit)), none_variant)
